@@ -557,7 +557,7 @@ Definition truth_ok (tbl : list (string * Z)) (c : call) (r : rule) (t : tstat) 
       | [] => false
       end &&
       forallb (fun e => match strip_prefix (norm (k_root c ++ r_path r)) (norm (e_comps e)) with
-                        | Some _ => negb (kind_eqb (e_kind e) KOther)
+                        | Some _ => true        (* a FIFO, a broken link ... may be there too *)
                         | None => false
                         end) truth &&
       (fix nd (l : list entry) : bool :=
